@@ -398,6 +398,13 @@ namespace zoo {
               const ipr::Identifier& i = w.id(); const ipr::cxx_form::Field_designator& fd = *ff.make_field_designator(i); const ipr::cxx_form::Slot_designator& sd = *ff.make_slot_designator(x);
               bool ok = same(c.initializer(), ei) && same(p.initializer(), x) && b.elements().size() == 0 && d.elements().size() == 0 && same(fd.name(), i) && same(sd.index(), x);
               dp->seq.push_back(fd, p); v.operands(ok && d.elements().size() == 1 && same(d.elements().position(0)->subobject(), fd) && same(d.elements().position(0)->initializer(), p));
+              {  /* nested initializer lists: the pointers the factory returned are appended to the braced list; each element is that very initializer (as an Elemental_initializer) */
+                 auto* in_b = ff.make_braced_provision(); auto* in_d = ff.make_designated_provision(); bp->seq.push_back(in_b); bp->seq.push_back(in_d);
+                 const ipr::cxx_form::Elemental_initializer* e0 = in_b; const ipr::cxx_form::Elemental_initializer* e1 = in_d;
+                 v.operands(b.elements().size() == 2 && &*b.elements().position(0) == e0 && &*b.elements().position(1) == e1);
+                 struct Which : ipr::cxx_form::Initializer_visitor { int hit = 0;
+                    void visit(const ipr::cxx_form::Expr_initializer&) override { hit = 1; } void visit(const ipr::cxx_form::Braced_provision&) override { hit = 2; } void visit(const ipr::cxx_form::Designated_list_provision&) override { hit = 3; } } wh0, wh1;
+                 b.elements().position(0)->accept(wh0); b.elements().position(1)->accept(wh1); v.operands(wh0.hit == 2 && wh1.hit == 3); }
               v.template node<ipr::cxx_form::Classic_provision>(c); v.template node<ipr::cxx_form::Parenthesized_provision>(p); v.template node<ipr::cxx_form::Braced_provision>(b); v.template node<ipr::cxx_form::Designated_list_provision>(d);
               v.template node<ipr::cxx_form::Field_designator>(fd); v.template node<ipr::cxx_form::Slot_designator>(sd); return; }
       // ---- process-wide constants, scopes, regions, overloads
